@@ -6,7 +6,7 @@ Tie: every profile's histories run under ASan+UBSan (quick) and additionally val
 report at operation k must coincide with a model fault at operation k (and both must be absent), and after closing
 everything the library's live allocation count (malloc/free interposed at link time) must be 0."""
 import json, os, subprocess, vlib, gen, hist
-from props import histprop
+from props import histprop, undel
 PID = "C09"
 MIX = [("names", {}), ("file", {}), ("dirc", {}), ("full", {}), ("extbound", {}), ("extfull", {}), ("namepairs", {"n": 25}), ("ro", {}), ("rdb", {}), ("geom", {}), ("dircspill", {})]
 
@@ -54,6 +54,9 @@ def run(res):
                 first = [l for l in r.stderr.split("\n") if "==" in l][:3]
                 bad.append((ops, "valgrind memcheck: " + " | ".join(first)))
     res.cov["valgrind_runs"] = vg
+    # undelete (adf_salv.c, not modelled): sanitizer reports and the allocation count of the probe's histories
+    for o, m in undel.probe(res, exe, 12 if res.tier == "quick" else 200):
+        if "Sanitizer" in m or "runtime error" in m or "harness exit" in m or "still holds allocations" in m: bad.append((o, m))
     res.cov["samples"] = [specs[0][6:14], specs[-1][6:14]]
     res.cov["traces_validated_against_impl"] = len(specs) - len(ties) - len(bad)
     if bad:
